@@ -259,7 +259,7 @@ fn handle_cases(out: &mut Out, rng: &mut Rng, thorough: bool) {
 	//    the schedules. Quick keeps bodies of <= 2 ops and samples the rest.
 	let sizes = [0usize, 1, 2, 3, 5];
 	let scheds = small_scheds();
-	let keep = if thorough { 1 } else { 16 };
+	let keep = if thorough { 1 } else { 6 };
 	for len in 0..=4usize {
 		for &size in &sizes {
 			let data = data_of(size);
@@ -286,7 +286,7 @@ fn handle_cases(out: &mut Out, rng: &mut Rng, thorough: bool) {
 			}
 		}
 	}
-	out.count(if thorough { "handle.exhaustive_B_plus_len_le_4_x_5_sizes_x_6_schedules_x_faults" } else { "handle.sampled_1_in_16_of_exhaustive_set" });
+	out.count(if thorough { "handle.exhaustive_B_plus_len_le_4_x_5_sizes_x_6_schedules_x_faults" } else { "handle.sampled_1_in_6_of_exhaustive_set" });
 	// 2. Thorough: length 5 over one configuration per data size.
 	if thorough {
 		for &size in &[2usize, 3] {
@@ -306,7 +306,7 @@ fn handle_cases(out: &mut Out, rng: &mut Rng, thorough: bool) {
 	//    `prefix` / `Cow` picks its own buffer sizes, so programs with such
 	//    steps over more than 8 bytes use an uncapped or constant-cap source
 	//    (see Model/Input.lean); the others use arbitrary schedules.
-	let n_random = if thorough { 60000 } else { 6000 };
+	let n_random = if thorough { 150000 } else { 20000 };
 	for _ in 0..n_random {
 		let size = match rng.below(4) {
 			0 => rng.below(9) as usize,
@@ -434,7 +434,7 @@ pub fn corpus(rng: &mut Rng, thorough: bool) -> Vec<Item> {
 	for (label, bytes) in HAND {
 		push(&mut v, label, bytes.to_vec());
 	}
-	let scale = if thorough { 8 } else { 1 };
+	let scale = if thorough { 8 } else { 2 };
 	// Valid documents and streams of every format.
 	let mut valid: Vec<(Fmt, Vec<u8>)> = vec![];
 	for f in crate::xtapi::ALL_FMTS {
